@@ -55,6 +55,42 @@ func H06_shutdown() {
 	vsymAssert(!e.tty.running, "the tty is stopped when Fini/Suspend returns")
 }
 
+// H06_concurrent: input, a resize notification and posted events are still in flight (the
+// reader and the main loop are runnable, not parked) when Fini/Suspend is called, and up to
+// `preempt` forced context switches at synchronisation points interleave them with the
+// shutdown.  Every such interleaving must let the call return.
+func H06_concurrent() {
+	e := h01New("xterm-256color", 3, 1, false)
+	posted := []int{0, 9, 10}[vsymChoice("posted", 3)]
+	for i := 0; i < posted; i++ {
+		_ = e.s.PostEvent(NewEventInterrupt(nil))
+	}
+	chunks := vsymChoice("chunks", 3) // reads the reader has not taken yet
+	for i := 0; i < chunks; i++ {
+		e.tty.inCh <- []byte{'a', 'b'}
+	}
+	if vsymChoice("resize", 2) == 1 && e.tty.cb != nil {
+		e.tty.cb()
+	}
+	if vsymChoice("readerr", 2) == 1 {
+		close(e.tty.inCh)
+	}
+	vsymPreemptWindow(true)
+	switch vsymChoice("end", 3) {
+	case 0:
+		e.s.Fini()
+	case 1:
+		_ = e.s.Suspend()
+	case 2:
+		_ = e.s.Suspend()
+		_ = e.s.Resume()
+		e.s.Fini()
+	}
+	vsymPreemptWindow(false)
+	vsymAssert(len(e.tty.badOrder) == 0, "the Tty is driven in contract order")
+	vsymAssert(!e.tty.running, "the tty is stopped when Fini/Suspend returns")
+}
+
 // H06_inert: after Fini every Screen call is harmless, PollEvent returns at once, a second Fini is a no-op.
 func H06_inert() {
 	e := h01New("xterm-256color", 3, 1, false)
